@@ -133,7 +133,9 @@ CHECKS = {
             "sample counter, records the phases the generator drew from the RandomState proxy it was given, and compares sampled "
             "positions of every request with the closed-form Jakes sum evaluated in longdouble; a black-box twin (same seed, one skip + "
             "one request) decides chunking independence without internals; shape/count, magnitude bound and zero-Doppler constancy are "
-            "checked on every request.",
+            "checked on every request.  Sizes are passed as Python or fixed-width numpy integers, returned chunks are held by reference "
+            "and re-compared after later requests, and the module-level generate_jakes_samples() is driven in continuation chains "
+            "(returned time and phases passed back in) against the same model.",
             "Tolerance sqrt(L)(2 pi Fd t eps 40 + 1e-12): met by any implementation forming k*Ts in double, violated by a 1e-10 relative drift; if the phases cannot be identified from sample 0 the absolute model degrades to 'not attached' and the twin decides.",
             "reference model (integer position + closed-form sum) in lock-step with request histories, plus black-box twin",
             "DESIGN.md §5 C14"),
